@@ -25,6 +25,7 @@ import (
 	"sync"
 	"testing"
 	"testing/synctest"
+	"time"
 	"unsafe"
 
 	"github.com/creachadair/jrpc2"
@@ -374,6 +375,7 @@ func runServerScenario(t *testing.T, sc *srvScenario, pickFn func(n int) int, sk
 	}
 	writeProgress(sc)
 	defer runtime.GOMAXPROCS(runtime.GOMAXPROCS(1)) // one goroutine at a time: schedules replay exactly
+	defer scenarioWatchdog("server scenario")()
 	synctest.Test(t, func(t *testing.T) {
 		jrpc2.VerifHook = r.sched.hook
 		defer func() { jrpc2.VerifHook = nil }()
@@ -708,6 +710,19 @@ func installStuckHandler(t *testing.T, res *Result, what string) {
 		res.Write(t)
 		os.Exit(0)
 	}
+}
+
+// scenarioWatchdog guards one scheduled run with a real-time limit (the timer lives outside the
+// bubble). A run normally takes milliseconds; one that is still going after 30 s is wedged in a way
+// the bubble cannot see - typically a goroutine blocked for good while holding a mutex that the
+// others need - and would otherwise only end with the test binary's ten-minute timeout. The process
+// exits; the check attributes the failure to the scenario in the .progress file.
+func scenarioWatchdog(what string) (stop func()) {
+	tm := time.AfterFunc(30*time.Second, func() {
+		fmt.Fprintf(os.Stderr, "panic: watchdog: the %s in progress did not finish within 30s of real time (a goroutine is blocked for good, probably holding a mutex)\n", what)
+		os.Exit(3)
+	})
+	return func() { tm.Stop() }
 }
 
 // rngPick returns a pickFn drawing from rng.
